@@ -183,6 +183,13 @@ pub fn bool_scenario(n: usize, shape: &str, op: &str) -> (u64, u64, u64) {
             );
             (MultiPolygon(needles), MultiPolygon(vec![clip]))
         }
+        // staircase of n disjoint rectangles (step k: [k, k+1.5] x [2k, 2k+1]): every step's edges
+        // are inserted while the step below is still open, so the chain of "nearest lower result
+        // edge" links is n long although the sweep line never holds more than a few segments
+        "steps" => {
+            let steps: Vec<Polygon<f64>> = (0..n).map(|k| rect(k as f64, 2.0 * k as f64, k as f64 + 1.5, 2.0 * k as f64 + 1.0)).collect();
+            (MultiPolygon(steps), MultiPolygon(vec![rect(0.0, 2.0 * n as f64 - 3.0, 0.5, 2.0 * n as f64 - 2.0)]))
+        }
         // k x k grid of unit squares against the same grid shifted by half a cell
         "grid" => {
             let k = (n as f64).sqrt().ceil() as usize;
